@@ -6,6 +6,7 @@ import (
 	"os"
 	"path/filepath"
 	"sort"
+	"strings"
 
 	"github.com/gopatchy/bkl"
 	"verif/core"
@@ -279,6 +280,7 @@ func buildC16(tier string) *core.Plan {
 			c.Eval()
 			c.Trans(4)
 			os.MkdirAll(filepath.Join(dir, "o"), 0o755)
+			os.WriteFile(filepath.Join(dir, "o", "base.yaml"), []byte(strings.Repeat("stale: entry that must not survive\n", 30)), 0o644)
 			_, se, code, err := runTool(dir, "bkli", "-o", "o/base.yaml", "a."+fa, "b."+fb)
 			c.Validated()
 			if err != nil || code != 0 {
@@ -583,7 +585,17 @@ func buildC17(tier string) *core.Plan {
 			c.Eval()
 			c.Trans(2)
 			wit := fmt.Sprintf("cli %s/%s %s", f1, f2, core.Canon([]any{lo, up}))
+			// first through -o onto an existing, longer file; then on stdout
+			os.MkdirAll(filepath.Join(dir, "o"), 0o755)
+			os.WriteFile(filepath.Join(dir, "o", "req.json"), []byte(strings.Repeat(" ", 400)+"{\"stale\": \"$required\"}\n"), 0o644)
+			_, _, ocode, _ := runTool(dir, "bklr", "-o", "o/req.json", "a.b."+f2)
 			so, se, code, err := runTool(dir, "bklr", "-f", "json", "a.b."+f2)
+			if ocode == 0 && code == 0 {
+				if fb, rerr := os.ReadFile(filepath.Join(dir, "o", "req.json")); rerr != nil || string(fb) != so {
+					c.Fail("cli-bklr", "output-file-differs-from-stdout", fmt.Sprintf("cli %s/%s %s", f1, f2, core.Canon([]any{lo, up})), map[string]any{"file": string(fb), "stdout": so})
+					return
+				}
+			}
 			p, lerr := layerAPI(lo, up)
 			c.Validated()
 			if lerr != nil {
